@@ -457,7 +457,32 @@ def rule_w3(ctx, R):
     b = ctx.prog.need(HE)
     wm = [i for i, t in b.calls() if callee(t) == ENGINE + "was_modified_since"]
     execs = [i for i, t in b.calls() if callee(t) in (SERVER + "process_command_parts", SERVER + "process_normal_command")]
-    R.floor("was_modified_since_calls", len(wm))
+    # the check may also sit in a closure driven from here (`watched.iter().any(|..| ..)`): the
+    # site is then the call that takes the closure, and its bool result is the verdict
+    wmc = []
+    for i, t in b.calls():
+        for c in t.get("clos") or []:
+            cb = ctx.prog.bodies.get(c)
+            if cb is not None and any(callee(tt) == ENGINE + "was_modified_since" for _, tt in cb.calls()):
+                wmc.append((i, c))
+    R.floor("was_modified_since_calls", len(wm) + len(wmc))
+    for w, c in wmc:
+        dom = all(cfg.dominates(b, w, e) for e in execs)
+        t = b.term(w)
+        sw = shared._follow_to_switch(b, t["t"], t["d"]["l"]) if t["t"] >= 0 else None
+        R.inst(HE, "abort-test", {"test_at": b.loc(w), "in_closure_of": callee(t).split("::")[-1], "dominates_execution": dom})
+        if not dom:
+            R.finding(HE, "abort-test:not-dominating", "the watched-key check does not dominate the execution of the queued commands", b.loc(w))
+        if sw is None:
+            R.finding(HE, "abort-test:result-ignored", "result of the watched-key check is not inspected", b.loc(w)); continue
+        # the closure maps Ok(false) to one bool value and everything else to the other: find which
+        cb = ctx.prog.bodies[c]
+        ts = dict(sw[1]["ts"])
+        edges = {"true": sw[1]["o"], "false": ts.get(0)}
+        reach = {k: (v is not None and any(e in cfg.fwd(b, [v], cut=[w]) for e in execs)) for k, v in edges.items()}
+        R.inst(HE, "abort-edge", {"edges_reaching_execution": [k for k, v in reach.items() if v]})
+        if reach["true"] and reach["false"]:
+            R.finding(HE, "abort-edge:executes", "both outcomes of the watched-key check lead to the execution of the queued commands", b.loc(w))
     for w in wm:
         rs = shared.result_switch(b, w)
         dom = all(cfg.dominates(b, w, e) or w_loop_dominates(b, w, e) for e in execs)
